@@ -197,8 +197,16 @@ def parser_part(R, rng, quick):
                 vbits = {u(k, w): gen.rand_bits(rng, rng.choice([0, 1, 8, 33])) for k in keys}
                 leafref = rc.RC(gen.rand_bits(rng, 12))
                 refmap = {k: (b, [leafref] if rng.random() < 0.2 else []) for k, b in vbits.items()}
-                for variant in ('plain', 'plain-pruned', 'aug', 'aug-pruned'):
+                for variant in ('plain', 'plain-pruned', 'aug', 'aug-pruned', 'aug-refs', 'aug-refs-pruned'):
                     aug = (lambda v: (len(v[0]) * 7 + 1) & 0xFFFF, lambda a, b: (a + b) & 0xFFFF, XB) if variant.startswith('aug') else None
+                    aug_dec = XB if aug else None
+                    if variant.startswith('aug-refs'):
+                        # augmentation values that carry a reference when odd (as DepthBalanceInfo / CurrencyCollection do with extra currencies):
+                        # in a leaf the extra's reference precedes the value's references, in a fork it follows the two children
+                        aug = (lambda v: (len(v[0]) * 7 + len(v[1])) & 0xFFFF, lambda a, b: (a + b) & 0xFFFF,
+                               lambda x: (u(x, XB), [rc.RC(u(x, XB) + '1')] if x & 1 else []))
+                        aug_dec = lambda bits, pos, refs, ri: ((int(bits[pos:pos + XB], 2), refs[ri].hash if int(bits[pos:pos + XB], 2) & 1 else None),
+                                                               pos + XB, ri + (int(bits[pos:pos + XB], 2) & 1))
                     prune = (lambda path, cell: rng.random() < 0.25) if variant.endswith('pruned') else None
                     chooser = lambda n, mm, un: rng.choice(dictref.valid_kinds(n, mm, un))
                     log = []
@@ -213,7 +221,7 @@ def parser_part(R, rng, quick):
                     if tree is None or tree.type != rc.ORD:
                         R.count('parser_skipped_does_not_fit')
                         continue
-                    want_leaves, want_extras, pruned = dictref.decode(tree, w, XB if aug else None)
+                    want_leaves, want_extras, pruned = dictref.decode(tree, w, aug_dec)
                     W = {'width': w, 'variant': variant, 'boc': rc.encode_boc([tree]).hex() if len(keys) < 40 else None, 'nkeys': len(keys), 'shape': sname,
                          'label_kinds': sorted({k for *_, k in log}), 'pruned_prefixes': pruned[:8]}
                     for route in ('builder', 'boc'):
@@ -245,6 +253,11 @@ def parser_part(R, rng, quick):
                         else:
                             xd = lambda s: lib_slice_value(s)
                             yd = lambda s: s.load_uint(XB)
+                            if variant.startswith('aug-refs'):
+                                def yd(s):
+                                    x = s.load_uint(XB)
+                                    return (x, s.load_ref().hash if x & 1 else None)
+                                R.count('aug_ref_extras', sum(1 for x in want_extras if x[1] is not None))
                             root_extra = int(tree.bits[-XB:], 2) if len(want_leaves) + len(pruned) > 1 else None
                             calls = [('parse_hashmap_aug', lambda: parse_hashmap_aug(cell.begin_parse(), w, xd, yd)),
                                      ('load_hashmap_aug', lambda: cell.begin_parse().load_hashmap_aug(w, xd, yd)),
@@ -268,7 +281,7 @@ def parser_part(R, rng, quick):
                                 if gl != wl:
                                     R.violation(f'parser-differs-{cname}-{"pruned" if pruned else "full"}', f'{cname}: leaves differ from the tree: missing '
                                                 f'{len(set(wl) - set(gl))}, extra {len(set(gl) - set(wl))}', W)
-                                if sorted(gx) != sorted(want_extras):
+                                if sorted(gx, key=repr) != sorted(want_extras, key=repr):
                                     R.violation(f'aug-extras-differ-{cname}-{"pruned" if pruned else "full"}', f'{cname}: augmentation values lost/duplicated/misread: '
                                                 f'{len(gx)} returned, {len(want_extras)} in the unpruned tree', dict(W, got=gx[:20], want=want_extras[:20]))
                                 R.count('aug_extras_compared', len(want_extras))
@@ -293,7 +306,7 @@ def run(R):
     R.rule = ('canonical half: for (label length n, key width m, label contents uniform/mixed) a 1-2 key map whose root label is exactly that; the library cell hash '
               'is compared with the canonical tree of an independent encoder (dict.cpp label rule); plus random maps over hostile key shapes (inner labels). '
               'parser half: random maps re-encoded by the reference with every label drawn from the kinds valid for it (short/long/same incl. zero-length), '
-              'optionally as HashmapAug with uint16 extras, optionally with random subtrees replaced by pruned branches; every plain/augmented parser entry '
+              'optionally as HashmapAug with uint16 extras (with and without a reference inside the extra), optionally with random subtrees replaced by pruned branches; every plain/augmented parser entry '
               'point must return exactly the leaves (and extras) of the unpruned part. distinct = distinct (n,m,contents) or (width, keys, variant, label kinds); '
               'non-trivial = all')
     R.assumptions = ['R4 (lib/dictref.py) implements hashmap.tlb and the label selection of TON crypto/vm/dict.cpp', 'fork nesting <= 400',
@@ -311,6 +324,7 @@ def run(R):
     R.floor('parser_trees', 300)
     R.floor('parser_trees_with_pruned', 50)
     R.floor('aug_extras_compared', 500)
+    R.floor('aug_ref_extras', 100)
     R.floor('parsed_label_kinds', 10, 'set')
 
 
@@ -323,6 +337,9 @@ def replay(R, witness, rec):
         tree = dec['roots'][0]
         w = witness['width']
         aug = witness['variant'].startswith('aug')
+        if witness['variant'].startswith('aug-refs'):
+            R.inconc('replay-not-supported-for-aug-refs')
+            return
         want_leaves, want_extras, pruned = dictref.decode(tree, w, 16 if aug else None)
         wl = {k: (b, [x.hash for x in refs]) for k, (b, refs) in want_leaves.items()}
         cell = bridge.to_lib(tree, 'builder')
